@@ -5,10 +5,13 @@ package main
 import (
 	"context"
 	"errors"
+	"reflect"
+	"strings"
 	"sync"
 	"sync/atomic"
 	"time"
 
+	"github.com/NethermindEth/juno/blockchain/networks"
 	"github.com/NethermindEth/juno/core"
 	"github.com/NethermindEth/juno/core/felt"
 	"github.com/NethermindEth/juno/starknet"
@@ -29,7 +32,14 @@ type Faults struct {
 	// LIES (the answer is not true of any chain the source ever had):
 	LieLatestPct int `json:"lie_latest_pct,omitempty"` // latest: fabricated hash at a height <= tip / header of a previous epoch's chain / number beyond the chain
 	LieHashPct   int `json:"lie_hash_pct,omitempty"`   // BlockByNumber: a block whose Hash field (and more) is altered — fails verification
-	Budget       int `json:"budget"`                   // at most this many faulty answers per (kind, height); then honest
+	// BlockByNumber: a SELF-CONSISTENT forged block — an honest block with another claimed state root /
+	// another state diff / another OldRoot, block hash and state update hash RECOMPUTED, right number and
+	// parent: SanityCheckNewHeight accepts it; only Store's root verification can refuse it
+	ForgePct int `json:"forge_pct,omitempty"`
+	// ForgeTwin: forged answers may also be VALID twins (another timestamp, hash recomputed, true
+	// roots): a block that passes every check and may be stored; the honest chain does not contain it
+	ForgeTwin bool `json:"forge_twin,omitempty"`
+	Budget    int  `json:"budget"` // at most this many faulty answers per (kind, height); then honest
 	// Rules script particular interleavings (directed scenarios): applied before the random faults.
 	Rules []Rule `json:"rules,omitempty"`
 }
@@ -37,14 +47,19 @@ type Faults struct {
 // Rule: while the source is in epoch Epoch, a request for Height fails ("fail"), or its answer is
 // computed at once and handed over only when the node has stored UntilStores blocks ("hold";
 // at most 3 s), or is the (valid) block Height+1 ("wrong-num"), or is the block with an altered hash
-// ("hash-altered"); "latest-fabricated": BlockHeaderLatest answers (Height, random hash).
+// ("hash-altered"), or a self-consistent forged block ("forged": any kind, "forged-root": another
+// claimed state root); "latest-fabricated": BlockHeaderLatest answers (Height, random hash).
 type Rule struct {
 	Height      uint64 `json:"height"`
 	Epoch       int    `json:"epoch"`
 	Action      string `json:"action"`
 	UntilStores int    `json:"until_stores,omitempty"`
 	Times       int    `json:"times,omitempty"` // apply at most this many times (0 = always)
-	used        int
+	// AnyEmpty: instead of Height, the rule applies (once per height) to every requested block whose
+	// honest state diff is EMPTY
+	AnyEmpty bool `json:"any_empty_diff_block,omitempty"`
+	used     int
+	done     map[uint64]bool
 }
 
 // Trigger says when the source moves to the next epoch's chain.
@@ -62,6 +77,12 @@ type source struct {
 	trig   []Trigger       // trig[e] moves from epoch e to e+1
 	faults Faults
 	seed   uint64
+	net    *networks.Network
+	// sane runs the node's SanityCheckNewHeight on a forged answer (the generator checks its own work)
+	sane func(*lib.Bundle) error
+	// registerValid: a forged twin is a fully valid block; the store oracle must know it
+	registerValid func(*lib.Bundle)
+	selfErr       string
 
 	mu       sync.Mutex
 	epoch    int
@@ -83,6 +104,7 @@ type handedOut struct {
 	ch    chan error
 	num   uint64
 	valid bool
+	fault string
 }
 
 var errNotFound = errors.New("scripted source: block not found")
@@ -200,8 +222,18 @@ func (s *source) BlockByNumber(ctx context.Context, n uint64) (junosync.Committe
 	holdUntil := 0
 	for ri := range s.faults.Rules {
 		ru := &s.faults.Rules[ri]
-		if ru.Height == n && ru.Epoch == epoch && (ru.Times == 0 || ru.used < ru.Times) {
+		match := ru.Height == n
+		if ru.AnyEmpty {
+			match = diffSize(chain[n].SU.StateDiff) == 0 && !ru.done[n]
+		}
+		if match && ru.Epoch == epoch && (ru.Times == 0 || ru.used < ru.Times) {
 			ru.used++
+			if ru.AnyEmpty {
+				if ru.done == nil {
+					ru.done = map[uint64]bool{}
+				}
+				ru.done[n] = true
+			}
 			switch ru.Action {
 			case "wrong-num":
 				if int(n)+1 < len(chain) {
@@ -211,6 +243,9 @@ func (s *source) BlockByNumber(ctx context.Context, n uint64) (junosync.Committe
 				fault = "hash-altered"
 				ruleHash = true
 				s.hit("rule:hash-altered")
+			case "forged", "forged-root":
+				fault = ru.Action
+				s.hit("rule:" + ru.Action)
 			case "fail":
 				s.hit("rule:fail")
 				s.mu.Unlock()
@@ -231,6 +266,8 @@ func (s *source) BlockByNumber(ctx context.Context, n uint64) (junosync.Committe
 			fault = "corrupt"
 		case r.Chance(s.faults.LieHashPct, 100):
 			fault = "hash-altered"
+		case r.Chance(s.faults.ForgePct, 100):
+			fault = "forged"
 		case r.Chance(s.faults.WrongNumPct, 100) && len(chain) > 1:
 			fault = "wrong-num"
 		}
@@ -241,6 +278,7 @@ func (s *source) BlockByNumber(ctx context.Context, n uint64) (junosync.Committe
 	}
 	var b *lib.Bundle
 	valid := true
+	orig := chain[n]
 	switch fault {
 	case "err":
 		s.mu.Unlock()
@@ -259,8 +297,38 @@ func (s *source) BlockByNumber(ctx context.Context, n uint64) (junosync.Committe
 		s.hit("lie:" + how)
 		valid = false
 		fault = "corrupt:" + how
+	case "forged", "forged-root":
+		// a twin (valid, may be stored) only as the successor the node is waiting for: as an answer to
+		// revertTask it would be an undetectable lie about a block the node holds
+		twinOK := s.faults.ForgeTwin && fault == "forged"
+		if h, ok := s.rec.head(); twinOK && ok && h.num >= n {
+			twinOK = false
+		}
+		var how string
+		var err error
+		b, how, err = forge(chain[n], r, s.net, fault == "forged-root", twinOK)
+		if err == nil && s.sane != nil {
+			if e := s.sane(b); e != nil {
+				err = errors.New("SanityCheckNewHeight refuses the forged block (" + how + "): " + e.Error())
+			}
+		}
+		if err != nil {
+			if s.selfErr == "" {
+				s.selfErr = err.Error()
+			}
+			b, how = chain[n].Clone(), ""
+			fault = ""
+			break
+		}
+		s.hit("forged:" + how)
+		fault = "forged:" + how
+		valid = how == "twin"
+		if valid && s.registerValid != nil {
+			s.registerValid(b)
+		}
 	case "rule-wrong-num":
 		b = chain[n+1].Clone()
+		orig = chain[n+1]
 		s.hit("rule:wrong-num")
 	case "wrong-num":
 		m := uint64(r.Intn(len(chain)))
@@ -268,19 +336,27 @@ func (s *source) BlockByNumber(ctx context.Context, n uint64) (junosync.Committe
 			m = (n + 1) % uint64(len(chain))
 		}
 		b = chain[m].Clone()
+		orig = chain[m]
 	default:
 		b = chain[n].Clone()
 		s.hit("fetch:ok")
 	}
 	ch := make(chan error, 1)
-	s.handed = append(s.handed, handedOut{ch, b.Block.Number, valid})
+	s.handed = append(s.handed, handedOut{ch, b.Block.Number, valid, fault})
 	s.servedHeights[n] = true
 	s.advance()
 	s.mu.Unlock()
 	// the answer exists from now on (it was true of the source at this moment), even if it
 	// reaches the synchroniser later
-	s.rec.add(entry{Kind: eServed, Req: n, Num: b.Block.Number, Hash: *b.Block.Hash, Parent: *b.Block.ParentHash,
-		Valid: valid, Fault: fault, Epoch: epoch})
+	ent := entry{Kind: eServed, Req: n, Num: b.Block.Number, Hash: *b.Block.Hash, Parent: *b.Block.ParentHash,
+		Valid: valid, Fault: fault, Epoch: epoch, Orig: *orig.Block.Hash, RootSame: true, DiffSame: true,
+		Sane: valid || strings.HasPrefix(fault, "forged:")}
+	if !valid || fault != "" {
+		ent.RootSame = b.Block.GlobalStateRoot.Equal(orig.Block.GlobalStateRoot) && b.SU.NewRoot.Equal(orig.SU.NewRoot) &&
+			b.SU.OldRoot.Equal(orig.SU.OldRoot)
+		ent.DiffSame = reflect.DeepEqual(b.SU.StateDiff, orig.SU.StateDiff) && len(b.Classes) == len(orig.Classes)
+	}
+	s.rec.add(ent)
 	if err := sleepCtx(ctx, delay); err != nil {
 		// computed but never handed over: the caller sees a failed request
 		s.rec.add(entry{Kind: eServeErr, Req: n, Epoch: epoch, Fault: "cancelled-in-flight"})
@@ -442,6 +518,76 @@ func alterHash(b *lib.Bundle, r *lib.RNG, keepNumber bool) (*lib.Bundle, string)
 		c.Block.Number += 1 + uint64(r.Intn(2))
 		return c, "number+hash"
 	}
+}
+
+// forge returns a SELF-CONSISTENT variant of the honest block b: one thing is changed, then the block
+// hash is recomputed (core.BlockHash, the function Finalise uses) and put into the header and the
+// state update, so that header, hash and state update agree with each other exactly as
+// SanityCheckNewHeight demands; number and parent hash stay right. Kinds:
+//
+//	state-root  another claimed GlobalStateRoot / NewRoot (preferred for EMPTY diffs: "nothing to re-hash")
+//	state-diff  another storage value in the diff, the honest block's root claim kept
+//	old-root    another StateUpdate.OldRoot (the hash does not commit to it)
+//	twin        another timestamp: a fully VALID block (true roots) that is not the source's block
+func forge(b *lib.Bundle, r *lib.RNG, net *networks.Network, rootOnly, twinOK bool) (*lib.Bundle, string, error) {
+	c := b.Clone()
+	one := lib.F(1)
+	kind := "state-root"
+	if !rootOnly {
+		switch k := r.Intn(10); {
+		case k < 5:
+		case k < 7 && diffSize(c.SU.StateDiff) > 0 && len(c.SU.StateDiff.StorageDiffs) > 0:
+			kind = "state-diff"
+		case k < 8:
+			kind = "old-root"
+		case twinOK:
+			kind = "twin"
+		}
+	}
+	switch kind {
+	case "state-root":
+		var nr *felt.Felt
+		if r.Bool() {
+			nr = new(felt.Felt).Add(c.Block.GlobalStateRoot, one)
+		} else {
+			nr = new(felt.Felt).SetBytes(r.Bytes(31))
+		}
+		c.Block.GlobalStateRoot = nr
+		c.SU.NewRoot = nr
+		if diffSize(c.SU.StateDiff) == 0 {
+			kind = "state-root(empty-diff)"
+		}
+	case "state-diff":
+		for a, kv := range c.SU.StateDiff.StorageDiffs {
+			for k, v := range kv {
+				c.SU.StateDiff.StorageDiffs[a][k] = new(felt.Felt).Add(v, lib.F(2))
+				break
+			}
+			break
+		}
+	case "old-root":
+		c.SU.OldRoot = new(felt.Felt).Add(c.SU.OldRoot, one)
+		return c, kind, nil
+	case "twin":
+		c.Block.Timestamp++
+	}
+	h1, _, err := core.BlockHash(c.Block, c.SU.StateDiff, net, nil, core.DeprecatedTrieBackend)
+	if err != nil {
+		return nil, kind, errors.New("forge: BlockHash: " + err.Error())
+	}
+	h2, _, err := core.BlockHash(c.Block, c.SU.StateDiff, net, nil, core.TrieBackend)
+	if err != nil {
+		return nil, kind, errors.New("forge: BlockHash: " + err.Error())
+	}
+	if !h1.Equal(&h2) {
+		return nil, kind, errors.New("forge: the two trie backends give different block hashes")
+	}
+	c.Block.Hash = &h1
+	c.SU.BlockHash = &h1
+	if c.Block.Hash.Equal(b.Block.Hash) {
+		return nil, kind, errors.New("forge: the block hash does not depend on the forged field (" + kind + ")")
+	}
+	return c, kind, nil
 }
 
 // corrupt returns a copy of b with one committed field changed while the block hash is kept.
